@@ -196,7 +196,10 @@ def get_function_name(node):
     if isinstance(node, nodes.FunctionDef):
         return scope + node.name
     elif isinstance(node, nodes.Attribute):
-        return scope + node.expr.name + "." + node.attrname
+        # <module>.<function>: the module name is a global name, whatever function the
+        # call is written in
+        module = node.root().name
+        return (module + "." if module else "") + node.expr.name + "." + node.attrname
     elif isinstance(node, nodes.Name):
         return scope + node.name
     else:
